@@ -177,9 +177,17 @@ func (d *typeDictionary) resolveTypedefs() []error {
 func (t *Typedef) resolve(d *typeDictionary) []error {
 	// If we have no parent we are a base type and
 	// are already resolved.
-	if t.Parent == nil || t.YangType != nil {
+	if t.Parent == nil {
 		return nil
 	}
+	// What an earlier Process run resolved may be out of date: modules loaded
+	// since may have changed what the names in the type statement denote
+	// (e.g., a newer revision of an imported module).
+	run := d.currentRun()
+	if t.YangType != nil && t.resolveRun == run {
+		return nil
+	}
+	defer func() { t.resolveRun = run }()
 	if t.resolving {
 		return []error{fmt.Errorf("%s: typedef %s has a circular definition", Source(t), t.Name)}
 	}
@@ -225,7 +233,7 @@ func (t *Typedef) resolve(d *typeDictionary) []error {
 // cannot be resolved then one or more errors are returned.
 func (t *Type) resolve(d *typeDictionary) (errs []error) {
 	run := d.currentRun()
-	if t.YangType != nil && (len(t.resolveErrs) == 0 || t.resolveRun == run) {
+	if t.YangType != nil && t.resolveRun == run {
 		return t.resolveErrs
 	}
 	defer func() { t.resolveErrs, t.resolveRun = errs, run }()
